@@ -184,6 +184,22 @@ def c08_arma2psd(ctx, case):
     if a is not None and len(a) and float(np.sum(np.abs(a))) > 0.9:
         a = a * 0.9 / float(np.sum(np.abs(a)))      # keep A(f) away from zero on the unit circle
     nfft, rho, T = case["nfft"], case["rho"], case["T"]
+
+    def twin(v):
+        """another coefficient vector with the same memory image: the interleaved real/imaginary parts of a complex vector
+        as a real one, pairs of a real vector as a complex one (an I/Q buffer seen both ways)"""
+        if v is None or len(v) == 0:
+            return None
+        v = np.ascontiguousarray(v)
+        if np.iscomplexobj(v):
+            return v.view(float)
+        return v.astype(float).view(complex) if len(v) % 2 == 0 else None
+    if (nfft + (0 if a is None else len(a))) % 3 == 0:
+        # one case in three is preceded by the evaluation, on the same grid, of the models whose coefficients are the twins
+        for ta, tb in ((twin(a), None), (None, twin(b))):
+            if (ta is not None and len(ta) < nfft) or (tb is not None and len(tb) < nfft):
+                _ = spectrum.arma2psd(A=ta, B=tb, rho=1.0, T=1.0, NFFT=nfft)      # (its own values are not looked at)
+        ctx.cls("after a model with the same memory image")
     got = np.asarray(spectrum.arma2psd(A=a, B=b, rho=rho, T=T, NFFT=nfft))
     f = np.arange(nfft) / float(nfft)
     A = ref.polyval_unit(np.concatenate(([1.0], a)) if a is not None else [1.0], f)
@@ -320,4 +336,10 @@ from vlib import lifecheck as _life   # noqa: E402
          "bit-identical to what it was, and after p.data *= g, p.data -= mean or the construction buffer refilled in place and "
          "assigned again equals that of a fresh object on the samples now held: Periodogram, pcorrelogram, pburg, pyule, pcovar, pmodcovar, parma, pma, pminvar, mtm_unity")
 def c08_life(ctx, case):
+    _life.body(ctx, case)
+
+
+@sub("C08.life_grid", enum=_life.life_enum(['Periodogram', 'pcorrelogram', 'pburg', 'pyule', 'pcovar', 'pmodcovar', 'parma', 'pma', 'pminvar', 'mtm_unity']), exhaustive=True, shards_quick=2, shards_thorough=2,
+     doc="the same on a fixed grid: every action x real/complex x default/centred layout for Periodogram, pcorrelogram, pburg, pyule, pcovar, pmodcovar, parma, pma, pminvar, mtm_unity")
+def c08_life_grid(ctx, case):
     _life.body(ctx, case)
